@@ -6,8 +6,10 @@
   (c11-chain (level (<field> ty)…) …)   classes of one inheritance chain, base first
      → (ok <class>…)   <class> ::= (reject) | (ok (<field> child|prop)…), up to the first rejected class
   (c11-classify ty) → (ok child|prop|reject)
+  (c11-fkind ty)    → (ok reject|prop|one|tuple)   what `process_node_fields` stores (Model/AnnotAcc.lean)
 -/
 import PyOak.Model.Annot
+import PyOak.Model.AnnotAcc
 namespace PyOak
 open Sexp Annot
 
@@ -61,6 +63,13 @@ def handleAnnot (cmd : String) (args : List Sexp) : Option Sexp :=
   | "c11-classify" =>
       match args with
       | [t] => do pure (app "ok" [verdictSexp (← decodeAnnotTy t).classify])
+      | _ => none
+  | "c11-fkind" =>
+      match args with
+      | [t] => do
+          let k := fkind (← decodeAnnotTy t)
+          pure (app "ok" [sym (match k with
+            | none => "reject" | some .prop => "prop" | some .childOne => "one" | some .childTuple => "tuple")])
       | _ => none
   | _ => none
 
